@@ -14,12 +14,16 @@
 EXTENDS LoadAware, TLC
 
 CONSTANTS Nodes, PodNames, ReqVals, UsageVals, Times, RIs, MaxClock,
-          MCEstSched, MCEstInit, MCIncludeSys, NodeChange
+          MCEstScheds, MCEstInits, NodeChange
 
 VARIABLES cache,   \* node -> cached sums (implementation)
           api,     \* pod name -> the pod object last delivered by the informer, or NoPod
           resv     \* pod name -> node it is reserved on by the scheduler ("" = none)
 mcvars == <<vars, cache, api, resv>>
+
+OptSec1 == {None, 1}     \* cfg files cannot write -1
+OptSec2 == {None, 2}
+OnlyNone == {None}
 
 NoPod == [exists |-> FALSE]
 V(x)  == [d \in Dims |-> x]
@@ -40,8 +44,9 @@ MetricShapes ==
         ut \in Times, ri \in RIs, pr \in PodReports}
 
 MCInit ==
-    /\ cfg = [factors |-> V(100), estSched |-> MCEstSched, estInit |-> MCEstInit, custom |-> FALSE,
-              includeSys |-> MCIncludeSys, usageThr |-> Zero, prodThr |-> Zero, aggOn |-> FALSE, aggThr |-> Zero,
+    /\ \E es \in MCEstScheds, ei \in MCEstInits, sys \in BOOLEAN :
+       cfg = [factors |-> V(100), estSched |-> es, estInit |-> ei, custom |-> FALSE,
+              includeSys |-> sys, usageThr |-> Zero, prodThr |-> Zero, aggOn |-> FALSE, aggThr |-> Zero,
               aggType |-> "", aggDur |-> 0, filterExpired |-> None, expSec |-> None, enableExpired |-> None, nowOff |-> 0]
     /\ clock = 0
     /\ metric = [n \in Nodes |-> NoMetric]
@@ -118,7 +123,7 @@ Bind(p) ==
 Update(p) ==
     /\ api[p].exists
     /\ \/ \E sh \in Shapes : Deliver(p, [api[p] EXCEPT !.prio = sh[1], !.req = V(sh[2])])       \* spec / priority
-       \/ \E t \in Times : api[p].init = None /\ Deliver(p, [api[p] EXCEPT !.init = t])          \* conditions
+       \/ \E t \in Times : cfg.estInit # None /\ api[p].init = None /\ Deliver(p, [api[p] EXCEPT !.init = t])   \* conditions
        \/ \E t \in Times : api[p].node # "" /\ api[p].sched = None /\ Deliver(p, [api[p] EXCEPT !.sched = t])
        \/ api[p].node # "" /\ ~api[p].term /\ Deliver(p, [api[p] EXCEPT !.term = TRUE])          \* terminated
        \/ Deliver(p, api[p])                                                                      \* nothing relevant
